@@ -316,7 +316,9 @@ func rawProgram(r *Rng, maxLen int) []Op {
 	// Writes that are not preceded by SetMode may land in raw mode, which only
 	// accepts well-formed fragments (C09's quantifier): marker-free text or whole
 	// envelopes, never a lone or partial marker.
-	pay := []string{"@", "", " ", "\n", "@\n@", "é@日", "?@", startM + "@" + endM, startM + "@" + endM + "\n" + startM + "b" + endM, "x" + redactedM, "º@"}
+	pay := []string{"@", "", " ", "\n", "@\n@", "é@日", "?@", startM + "@" + endM, startM + "@" + endM + "\n" + startM + "b" + endM, "x" + redactedM, "º@",
+		// fragments ending inside a multi-byte sequence that cannot become a marker (the finished string gets a '?' there)
+		"@\xc3", "\xf0\x9f", "@\xf0\x9f\x98"}
 	for i := 0; i < n; i++ {
 		switch r.Intn(6) {
 		case 0:
@@ -403,6 +405,28 @@ func runC13(c *Ctx) {
 	}
 	c.ParallelFor(int64(len(split)), func(w *Worker, i int64) { c13all(w, split[i], true, nil) })
 	c.AddCount("directed_split_payload_histories", int64(len(split)))
+	// Directed: objects that have grown large (capacities beyond 64 KiB, where an implementation may decide not to keep
+	// its storage) are reset or taken while an envelope is open, pending or closed, then used again.
+	var bigs [][]Op
+	for _, size := range []int{5000, 40000, 70000, 200000} {
+		for _, m1 := range []string{"UnsafeString", "SafeString", "Write", "SafeBytes"} {
+			for _, follow := range [][]Op{
+				{{M: "UnsafeString", S: "b", V: true}, {M: "SafeString", S: " tail", V: true}},
+				{{M: "SafeString", S: "a" + startM, V: true}, {M: "UnsafeString", S: "b", V: true}},
+				{{M: "Print", A: "mixed", S: "x", V: true}},
+			} {
+				bigs = append(bigs, append([]Op{{M: m1, S: strings.Repeat("x", size), V: true}}, follow...))
+			}
+		}
+	}
+	c.ParallelFor(int64(len(bigs)), func(w *Worker, i int64) {
+		for _, mk := range []func() *bufOps{newBuilderOps, newManualOps} {
+			for _, how := range resetters {
+				c13reset(w, mk, bigs[i], 1, how)
+			}
+		}
+	})
+	c.AddCount("directed_large_object_resets", int64(len(bigs)*6))
 	nRand := c.pick(120000, 1500000)
 	c.ParallelFor(nRand, func(w *Worker, i int64) {
 		r := newRng(c.Seed, 0xc13, uint64(i))
